@@ -9,8 +9,14 @@ namespace Pyx.Prebuild
 /-- the generic instance-reference type is not the reference type of a modelled class -/
 def GenericFree (c : TCtx) : Prop := c.classOfType (some "inst_ref<Object>") = none
 
-theorem kindOf_ne_slr (c : TCtx) (env : Env) (h : Expr) (hs : h ≠ .selected) :
-    (kindOf c env h == "V_SLR") = false := by
+theorem fieldRow_ne_slr (cls : Option ClassInfo) (a : String) : ((fieldRow cls a).1 == "V_SLR") = false := by
+  unfold fieldRow
+  cases cls with
+  | some ci => simp only; decide
+  | none => simp only; split <;> decide
+
+theorem kindOf_ne_slr (c : TCtx) (env : Env) (sel : Option String) (h : Expr) (hs : h ≠ .selected) :
+    (kindOf c env sel h == "V_SLR") = false := by
   cases h with
   | selected => exact absurd rfl hs
   | var n =>
@@ -25,22 +31,30 @@ theorem kindOf_ne_slr (c : TCtx) (env : Env) (h : Expr) (hs : h ≠ .selected) :
     split
     · split <;> decide
     · decide
+  | field hh aa =>
+    simp only [kindOf]
+    split <;> exact fieldRow_ne_slr _ _
   | call k a b ps => cases k <;> (simp only [kindOf]; decide)
   | _ => simp only [kindOf]; decide
 
 theorem field_ok (c : TCtx) (env : Env) (sel : Option String) (hg : GenericFree c) (h : Expr) (a : String) :
-    attrTy (fieldClass c sel (typeOf c env sel h) (kindOf c env h)) a = typeOf c env sel (.field h a) := by
+    fieldRow (fieldClass c sel (typeOf c env sel h) (kindOf c env sel h)) a =
+      (kindOf c env sel (.field h a), typeOf c env sel (.field h a)) := by
   by_cases hs : h = .selected
   · subst hs
     have h0 : tyClass c (some "inst_ref<Object>") = none := by
       unfold tyClass; rw [show c.classOfType (some "inst_ref<Object>") = none from hg]
-    simp [typeOf, fieldClass, kindOf, h0]
-  · have hk := kindOf_ne_slr c env h hs
-    have e1 : typeOf c env sel (.field h a) = attrTy (tyClass c (typeOf c env sel h)) a := by
-      cases h <;> first | exact absurd rfl hs | simp only [typeOf]
-    rw [e1]
-    simp only [fieldClass, hk]
-    cases tyClass c (typeOf c env sel h) <;> rfl
+    simp [typeOf, fieldClass, kindOf, h0, attrTy]
+  · have hk := kindOf_ne_slr c env sel h hs
+    have e1 : typeOf c env sel (.field h a) = (fieldRow (tyClass c (typeOf c env sel h)) a).2 := by
+      cases h <;> first | exact absurd rfl hs | simp only [typeOf, attrTy]
+    have e2 : kindOf c env sel (.field h a) = (fieldRow (tyClass c (typeOf c env sel h)) a).1 := by
+      cases h <;> first | exact absurd rfl hs | simp only [kindOf]
+    rw [e1, e2]
+    have e3 : fieldClass c sel (typeOf c env sel h) (kindOf c env sel h) = tyClass c (typeOf c env sel h) := by
+      simp only [fieldClass, hk]
+      cases tyClass c (typeOf c env sel h) <;> rfl
+    rw [e3]
 
 /-! ### list facts -/
 
@@ -70,11 +84,11 @@ theorem typeOf_call_nil (c : TCtx) (env : Env) (sel : Option String) (k : CallKi
     returns for `e` carries `kindOf e` and, across R820, `typeOf e` -/
 def Good (c : TCtx) (env : Env) (sel : Option String) (e : Expr) (p : Pop) (r : Nat × Pop) : Prop :=
   r.2.vals = p.vals ++ walkExpr c env sel e ∧
-  r.2.vals[r.1]? = some (kindOf c env e, typeOf c env sel e)
+  r.2.vals[r.1]? = some (kindOf c env sel e, typeOf c env sel e)
 
 theorem good_leaf (c : TCtx) (env : Env) (sel : Option String) (e : Expr) (p : Pop)
-    (hw : walkExpr c env sel e = [(kindOf c env e, typeOf c env sel e)]) :
-    Good c env sel e p (p.newVal (kindOf c env e) (typeOf c env sel e)) := by
+    (hw : walkExpr c env sel e = [(kindOf c env sel e, typeOf c env sel e)]) :
+    Good c env sel e p (p.newVal (kindOf c env sel e) (typeOf c env sel e)) := by
   refine ⟨by simp [Pop.newVal, hw], ?_⟩
   simp [Pop.newVal]
 
@@ -95,8 +109,8 @@ mutual
         have ht := r820_of h2
         have hk := kind_of h2
         simp only [buildExpr, Good, Pop.newVal, ht, hk, field_ok c env sel hg h a]
-        refine ⟨by rw [h1]; simp [walkExpr, kindOf], ?_⟩
-        simp [kindOf]
+        refine ⟨by rw [h1]; simp [walkExpr], ?_⟩
+        simp
     | .index h i, p => by
         obtain ⟨h1, h2⟩ := buildExpr_good c env sel hg h p
         obtain ⟨i1, _⟩ := buildExpr_good c env sel hg i (buildExpr c env sel h p).2
@@ -124,7 +138,7 @@ mutual
         refine ⟨by rw [r1, h1, hty]; simp [walkExpr, kindOf], ?_⟩
         simp [kindOf, hty]
     | .call k nsp n ps, p => by
-        have hp := buildParams_good c env sel hg ps (p.newVal (kindOf c env (.call k nsp n ps))
+        have hp := buildParams_good c env sel hg ps (p.newVal (kindOf c env sel (.call k nsp n ps))
           (typeOf c env sel (.call k nsp n .nil))).2
         have hnil := typeOf_call_nil c env sel k nsp n ps
         simp only [buildExpr, Good]
@@ -155,7 +169,7 @@ end
     it creates are, in creation order, the rows of the specification walk -/
 theorem mechanism_types (c : TCtx) (env : Env) (sel : Option String) (hg : GenericFree c) (e : Expr) (p : Pop) :
     let r := buildExpr c env sel e p
-    r.2.r820 r.1 = typeOf c env sel e ∧ r.2.kind r.1 = kindOf c env e ∧
+    r.2.r820 r.1 = typeOf c env sel e ∧ r.2.kind r.1 = kindOf c env sel e ∧
     r.2.vals = p.vals ++ walkExpr c env sel e := by
   obtain ⟨h1, h2⟩ := buildExpr_good c env sel hg e p
   exact ⟨r820_of h2, kind_of h2, h1⟩
